@@ -307,8 +307,8 @@ def random_sampler_task(_):
     import torch
     from kappadata.samplers.random_sampler import RandomSampler
     p = Partial()
-    for n in range(1, 9):
-        for r in (1, 2, 3):
+    for n in list(range(1, 9)) + [31, 32, 33, 50, 64, 65, 100]:
+        for r in ((1, 2, 3) if n < 9 else (2, 3, 5, 7)):
             for repl in (False, True):
                 for seed in (0, 1, 2):
                     ds = DS([0] * n)
